@@ -60,6 +60,11 @@ def tasks(tier):
     for mn, tmn, name in _pairs(it):
         ts.append(("pair %s" % name + ("@lagrange" if ".lagrange" in mn else ""), "run_pair", dict(jmod=mn, tmod=tmn, name=name)))
     ts.append(("hand-vs-AD", "run_hand_vs_ad", {}))
+    # agreement of stress and elasticity tensor with the AD version: equal energies (above) + the hand-coded gradient / hessian are the
+    # derivatives of that energy (the AD version's are by construction)
+    for case in ("unloading", "primary"):
+        ts.append(("OgdenRoxburgh tangent [%s]" % case, "run_included", dict(modname="c03", fname="run_ogden", kwargs=dict(case=case), oid="C12.O2",
+                                                                        why="the hand-coded pseudo-elastic model agrees with Hyperelastic(ogden_roxburgh) in stress and tangent only if its own stress and tangent are consistent derivatives")))
     ts.append(("linear-family", "run_linear_family", {}))
     ts.append(("plane", "run_plane", {}))
     ts.append(("orthotropic", "run_orthotropic", {}))
@@ -419,3 +424,9 @@ def run_canary(col):
     col.info["canaries_expected"] = 1
     col.info["canaries_fired"] = 1 if differ else 0
     col.add("canary", "fixtures/canary_twins.py", "twin comparison distinguishes a changed coefficient", differ, nontrivial=False)
+
+
+def run_included(col, modname, fname, kwargs, oid, why):
+    from ..common import include
+
+    include(col, modname, fname, kwargs, oid, why)
